@@ -47,6 +47,9 @@ func zzCmdSet(mode int) {
 		return
 	}
 	zzAssert(pre != nil, "C10/set: only existing ids can be updated")
+	if opts.JSON && post != nil {
+		zzAssert(zzOutStr("id") == id && zzOutStr("state") == post.State && zzOutStr("claimed_by") == post.ClaimedBy, "C16/set: reported state and claimant are what a read shows")
+	}
 	if post != nil {
 		switch mode {
 		case 0:
@@ -111,6 +114,9 @@ func zzCmd_Claim() {
 	}
 	post := g2.Tasks[id]
 	zzAssert(pre != nil && !pre.IsEpic, "C06/claim: only live tasks can be claimed")
+	if opts.JSON && post != nil {
+		zzAssert(zzOutStr("id") == id && zzOutStr("state") == post.State && zzOutStr("agent_id") == post.ClaimedBy, "C16/claim: reported id, state and agent are what a read shows")
+	}
 	zzAssert(post != nil && post.State == "doing" && post.ClaimedBy == opts.AgentID && opts.AgentID != "", "C06/claim: task is doing and claimed by the requesting agent")
 	if pre != nil {
 		zzAssert(zzDocTransition(preCopy.State, "doing"), "C06/claim: claim <id> obeys the table's ->doing row")
@@ -169,6 +175,21 @@ func zzCmdNewTask(mode int) {
 		}
 	}
 	zzAssert(n == 1, "C10/new-task: a successful new creates exactly one item")
+	if opts.JSON {
+		rid := zzOutStr("id")
+		rt := g2.Tasks[rid]
+		_, wasThere := g.Tasks[rid]
+		zzAssert(rt != nil && !wasThere, "C16/new-task: the reported id is a fresh, live item")
+		if rt != nil {
+			zzAssert(zzOutStr("title") == rt.Title && zzOutStr("epic_id") == rt.EpicID, "C16/new-task: reported title and epic are what a read shows")
+			followUp := opts.StateFlag != "" || opts.ClaimFlag != "" || in.State != nil || in.Claim != nil
+			if followUp {
+				zzAssert(zzOutStr("state") == rt.State, "C16/new-task[reply built before the follow-up update]: reported state is what a read shows")
+			} else {
+				zzAssert(zzOutStr("state") == rt.State, "C16/new-task: reported state is what a read shows")
+			}
+		}
+	}
 	for k, t := range g.Tasks {
 		zzAssert(zzUnchangedItem(t, g2.Tasks[k]), "C10/new-task: existing items are not altered")
 	}
